@@ -221,7 +221,15 @@ def run(ctx):  # noqa: C901, PLR0912, PLR0915
             if isinstance(new, ast.Constant) and new.value is None:
                 continue  # deletion: nothing to version
             if not isinstance(new, ast.Name):
-                raise AnalysisError(f'C02.R2: new argument {unparse(new)} in {fi.qual} is not a local name')
+                # `item = TransactionItem(old, old.mk_copy())` ... `new_state = item.new`: the local that names the new object
+                holder = n.stmt.targets[0].id if (n.kind == 'stmt' and isinstance(n.stmt, ast.Assign) and
+                                                  isinstance(n.stmt.targets[0], ast.Name)) else None
+                names = sorted({nm for nm, vals in assigns.items() if holder and any(
+                    isinstance(v, ast.Attribute) and v.attr == 'new' and isinstance(v.value, ast.Name) and v.value.id == holder
+                    for v in vals)})
+                if len(names) != 1:
+                    raise AnalysisError(f'C02.R2: new argument {unparse(new)} in {fi.qual} is not a local name')
+                new = ast.Name(id=names[0], ctx=ast.Load())
             n_ti += 1
             old_is_none = isinstance(old, ast.Constant) and old.value is None
             incs = _increment_nodes(g, new.id, fi, assigns)
